@@ -13,7 +13,7 @@ ID = "C05"
 RULE = (
     "start documents: every value of Univ(2,2) over keys {a,'1'} (thorough also '-') and leaves {1,true}, plus hand-picked "
     "colliding documents; per model state the menu is: every existing location, every one-step extension (new key, index==len, "
-    "'-', len+1, '01', '1' on objects) and a non-existent deep path; ops add/replace/test x 5 values, remove, move/copy x all "
+    "'-', len+1, '01', '1' on objects) and a non-existent deep path; ops add/replace/test x 6 values, remove, move/copy x all "
     "(from,path) pairs incl. into-own-child, onto-self and the root. All histories of length 1 from every start document, "
     "length 2 from a subset (full menu), length 3 over a reduced menu (thorough). "
     "state = distinct (start document, history); non-trivial = the reference applies the whole history without error"
@@ -25,7 +25,7 @@ ASSUMPTIONS = [
     "a non-test failure may be reported by any JSONPatchError; a failed test must be JSONPatchTestFailure",
 ]
 
-VALUES = [1, True, "s", [], {"a": [1]}]
+VALUES = [1, True, "s", [], {"a": [1]}, None]
 EXTRA_START = [
     {"a": [1, 2], "1": {"a": 1}}, [[1, 2], {"1": 1}], {"-": [1], "a": {"-": 2}}, {"a": {"1": [True], "01": 2}},
     [1, [True, ["s"]]], {"a": 1, "b": 1.0, "c": True, "d": [1], "e": [True]}, [], {}, 1, "s",
@@ -54,6 +54,11 @@ def menu_paths(doc):
             for k in ("1", "-", "01"):
                 if k not in v:
                     paths.append(toks + [k])
+            # a missing member whose name is an existing member's name behind the pointer-extension prefixes ~ and #
+            for k in list(v)[:1]:
+                for pre in ("~", "#"):
+                    if pre + k not in v:
+                        paths.append(toks + [pre + k])
         elif isinstance(v, list):
             n = len(v)
             paths.append(toks + ["-"])
